@@ -101,6 +101,19 @@ def run_quilt(cs, rng, workdir=None):
             raise ValueError(op)
     except Exception as e:
         res = {'k': 'err', 'cat': P.err_category(e)}
+    # the Bus underneath keeps its own promises while the Quilt reads through it (C17): the bound holds, whatever is held is the member written
+    try:
+        if mode.startswith('store'):
+            mp = {'store': None, 'store_mp1': 1, 'store_mp2': 2}[mode]
+            loaded = [(lab, fr) for lab, fr in zip(bus._series.index, bus._series.values) if isinstance(fr, sf.Frame)]
+            if mp is not None and len(loaded) > mp:
+                return {'k': 'bus_max_persist_exceeded', 'loaded': len(loaded), 'max_persist': mp}
+            originals = {f.name: f for f in build_members(cs['q'])}
+            for lab, fr in loaded:
+                if not fr.equals(originals[lab], compare_dtype=True):
+                    return {'k': 'bus_holds_wrong_frame', 'label': str(lab)}
+    except NameError:
+        pass
     return res
 
 
